@@ -13,6 +13,9 @@ package main
 // shape of every entry point is extracted from the source (go/ast) into
 // Gen/ApiShape.v, (2) the class the model predicts from that shape and from the
 // builder-stack model is compared with the class observed in the child.
+// (3) sequences of Marshal calls on one object over self-referential types with
+// unsupported kinds are described by reflection as a type graph + value shapes
+// and compared, call by call, with the iterator-session model (run_typed).
 
 import (
 	"bufio"
@@ -99,10 +102,23 @@ var c07Entries = []c07Entry{
 	{"CTEMarshaler_MarshalToDocument", "marshal-cte", "cte", "marshal", false, true},
 }
 
+// Reuse of one Encoder (the object a Marshaler drives): only used by the call sequences (section J of runC07).
+// A step decodes a document with a FRESH decoder into the REUSED encoder (after PrepareToEncode); the decoder's own
+// recover turns the encoder's documented panics into errors, so the step's class is that of Decoder.DecodeDocument.
+var c07EncoderEntries = []c07Entry{
+	{"CBEEncoder_Reuse", "encode-cbe", "cbe", "encode", false, true},
+	{"CTEEncoder_Reuse", "encode-cte", "cte", "encode", false, true},
+}
+
 func c07EntryByName(n string) *c07Entry {
 	for i := range c07Entries {
 		if c07Entries[i].Name == n {
 			return &c07Entries[i]
+		}
+	}
+	for i := range c07EncoderEntries {
+		if c07EncoderEntries[i].Name == n {
+			return &c07EncoderEntries[i]
 		}
 	}
 	return nil
@@ -145,6 +161,192 @@ type c07unexported struct {
 	A int
 	c chan int //nolint
 }
+
+// ---------------------------------------------------------------------------
+// Type graphs: self-referential types that also contain an unsupported kind.  Generating the iterator / builder of
+// such a type fails half-way, AFTER iterators / builders of other types of the cycle (which captured the placeholder of
+// the failing type) have been cached; a later call on the same session that enters the cycle elsewhere invokes that
+// captured placeholder.  Values and templates are named "g:<root>/<view>" (see c07GraphViews).
+
+type c07RecA struct { // pointer cycle, unsupported kind AFTER the self reference
+	Name string
+	Next *c07RecA
+	Ch   chan int
+}
+type c07RecB struct { // unsupported kind BEFORE the self reference
+	Ch   chan int
+	Next *c07RecB
+}
+type c07RecC struct { // cycle through a slice of values
+	Kids []c07RecC
+	F    func()
+}
+type c07RecD struct { // cycle through a slice of pointers and a map
+	Kids []*c07RecD
+	M    map[string]*c07RecD
+	Z    complex128
+}
+type c07RecE struct { // mutual recursion, unsupported kind at the far end
+	V int
+	F *c07RecF
+}
+type c07RecF struct {
+	E    *c07RecE
+	Back []*c07RecE
+	P    unsafe.Pointer
+}
+type c07RecG struct { // cycle of three, unsupported kind in the middle
+	H *c07RecH
+}
+type c07RecH struct {
+	I *c07RecI
+	U uintptr
+	G *c07RecG
+}
+type c07RecI struct {
+	G *c07RecG
+	H *c07RecH
+}
+type c07RecJ struct { // every static type is supported; the interface field holds a channel at run time
+	Next *c07RecJ
+	Bad  interface{}
+}
+type c07RecK struct { // cycle through an array of pointers
+	Arr [2]*c07RecK
+	Ch  chan int
+}
+type c07RecL struct { // cycle through a map value and a pointer to pointer
+	M  map[string]c07RecL
+	PP **c07RecL
+	Z  complex64
+}
+type c07RecOK struct { // supported cycle (control)
+	V    int
+	Next *c07RecOK
+	Kids []*c07RecOK
+}
+type c07RecOuter struct { // supported wrapper around an unsupported cycle
+	OK *c07RecOK
+	A  *c07RecA
+	E  []*c07RecE
+}
+
+var c07GraphRoots = map[string]reflect.Type{
+	"recA": reflect.TypeOf(c07RecA{}), "recB": reflect.TypeOf(c07RecB{}), "recC": reflect.TypeOf(c07RecC{}), "recD": reflect.TypeOf(c07RecD{}),
+	"recE": reflect.TypeOf(c07RecE{}), "recF": reflect.TypeOf(c07RecF{}), "recG": reflect.TypeOf(c07RecG{}), "recH": reflect.TypeOf(c07RecH{}),
+	"recI": reflect.TypeOf(c07RecI{}), "recJ": reflect.TypeOf(c07RecJ{}), "recK": reflect.TypeOf(c07RecK{}), "recL": reflect.TypeOf(c07RecL{}),
+	"recOK": reflect.TypeOf(c07RecOK{}), "recOuter": reflect.TypeOf(c07RecOuter{}),
+}
+var c07GraphRootNames = func() []string {
+	out := []string{}
+	for k := range c07GraphRoots {
+		out = append(out, k)
+	}
+	sort.Strings(out)
+	return out
+}()
+
+// Views of a root type T. The core views are combined exhaustively (ordered pairs), the others are sampled.
+//
+//	val0 T{}            val2 T filled two levels deep     ptr0 &T{}         ptr2 &T filled two levels deep
+//	nilptr (*T)(nil)    sliceptr []*T{&T{}}                map map[string]*T{"k": &T{}}   ifacelist []interface{}{&T{}}
+//	sliceval []T{T filled one level}   emptyslice []*T{}   ptrptr **T        wrap struct{ P *T }{&T{}}
+var c07GraphCoreViews = []string{"val0", "val2", "ptr0", "ptr2", "nilptr", "sliceptr", "map", "ifacelist"}
+var c07GraphViews = append(append([]string{}, c07GraphCoreViews...), "sliceval", "emptyslice", "ptrptr", "wrap")
+
+// c07Fill builds a value of type t whose pointers / slices / maps are non-nil down to `depth` levels of indirection.
+// Interface fields named Bad hold a channel (an unsupported kind that only shows up while iterating).
+func c07Fill(t reflect.Type, depth int, fieldName string) reflect.Value {
+	v := reflect.New(t).Elem()
+	switch t.Kind() {
+	case reflect.Ptr:
+		if depth > 0 {
+			p := reflect.New(t.Elem())
+			p.Elem().Set(c07Fill(t.Elem(), depth-1, ""))
+			v.Set(p)
+		}
+	case reflect.Slice:
+		if depth > 0 {
+			v.Set(reflect.Append(v, c07Fill(t.Elem(), depth-1, "")))
+		}
+	case reflect.Array:
+		for i := 0; i < t.Len(); i++ {
+			v.Index(i).Set(c07Fill(t.Elem(), depth, ""))
+		}
+	case reflect.Map:
+		if depth > 0 && t.Key().Kind() == reflect.String {
+			m := reflect.MakeMap(t)
+			m.SetMapIndex(reflect.ValueOf("k").Convert(t.Key()), c07Fill(t.Elem(), depth-1, ""))
+			v.Set(m)
+		}
+	case reflect.Struct:
+		for i := 0; i < t.NumField(); i++ {
+			if t.Field(i).PkgPath == "" {
+				v.Field(i).Set(c07Fill(t.Field(i).Type, depth, t.Field(i).Name))
+			}
+		}
+	case reflect.Interface:
+		if depth > 0 && fieldName == "Bad" {
+			v.Set(reflect.ValueOf(make(chan int)))
+		}
+	case reflect.Int, reflect.Int8, reflect.Int16, reflect.Int32, reflect.Int64:
+		v.SetInt(1)
+	case reflect.String:
+		v.SetString("s")
+	}
+	return v
+}
+
+func c07GraphValue(name string) (interface{}, bool) {
+	if !strings.HasPrefix(name, "g:") {
+		return nil, false
+	}
+	p := strings.SplitN(name[2:], "/", 2)
+	if len(p) != 2 {
+		return nil, false
+	}
+	t, ok := c07GraphRoots[p[0]]
+	if !ok {
+		return nil, false
+	}
+	pt := reflect.PtrTo(t)
+	ptrTo := func(v reflect.Value) reflect.Value {
+		q := reflect.New(v.Type())
+		q.Elem().Set(v)
+		return q
+	}
+	switch p[1] {
+	case "val0":
+		return c07Fill(t, 0, "").Interface(), true
+	case "val2":
+		return c07Fill(t, 2, "").Interface(), true
+	case "ptr0":
+		return c07Fill(pt, 1, "").Interface(), true
+	case "ptr2":
+		return c07Fill(pt, 3, "").Interface(), true
+	case "nilptr":
+		return reflect.Zero(pt).Interface(), true
+	case "sliceptr":
+		return c07Fill(reflect.SliceOf(pt), 2, "").Interface(), true
+	case "sliceval":
+		return c07Fill(reflect.SliceOf(t), 2, "").Interface(), true
+	case "emptyslice":
+		return reflect.MakeSlice(reflect.SliceOf(pt), 0, 0).Interface(), true
+	case "map":
+		return c07Fill(reflect.MapOf(reflect.TypeOf(""), pt), 2, "").Interface(), true
+	case "ptrptr":
+		return ptrTo(c07Fill(pt, 1, "")).Interface(), true
+	case "ifacelist":
+		return []interface{}{c07Fill(pt, 1, "").Interface()}, true
+	case "wrap":
+		st := reflect.StructOf([]reflect.StructField{{Name: "P", Type: pt}})
+		return c07Fill(st, 1, "").Interface(), true
+	}
+	return nil, false
+}
+
+// values whose iteration fails only AFTER events have reached the encoder (open containers are left behind)
+var c07MidFailNames = []string{"v:mid-list-chan", "v:mid-map-func", "v:mid-struct-iface", "v:mid-deep", "g:recJ/ptr2", "g:recJ/val2"}
 
 // c07Supported lists the template / value kinds the library documents as supported.
 var c07TemplateNames = []string{
@@ -259,7 +461,7 @@ func c07Template(name string) (v interface{}, ok bool) {
 	case "struct-unexported-chan":
 		return c07unexported{A: 1}, true
 	}
-	return nil, false
+	return c07GraphValue(name)
 }
 
 // values to marshal: the templates above (as values) plus populated / special values
@@ -329,6 +531,14 @@ func c07Value(name string, deep int) (v interface{}, ok bool) {
 		return struct{}{}, true
 	case "v:interface-map":
 		return map[interface{}]interface{}{1: "a", "b": []interface{}{2}}, true
+	case "v:mid-list-chan":
+		return []interface{}{1, "a", make(chan int)}, true
+	case "v:mid-map-func":
+		return map[string]interface{}{"a": func() {}}, true
+	case "v:mid-struct-iface":
+		return c07Nested{I: 1, S: "s", L: []int{1}, X: make(chan int)}, true
+	case "v:mid-deep":
+		return []interface{}{[]interface{}{map[string]interface{}{"k": []interface{}{1, complex(1, 2)}}}}, true
 	case "v:cyclic-ptr":
 		n := &c07Cyclic{V: 1}
 		n.Next = n
@@ -408,6 +618,47 @@ func c07CallState(gid string) (deadlocked bool, desc string) {
 	return false, "call goroutine not found"
 }
 
+type c07Answer struct{ class, detail string }
+
+// c07Watch runs ONE call (f) in a goroutine of its own under the worker-side watchdog: a goroutine found parked in
+// sync.WaitGroup.Wait after 400 ms is a proven deadlock (answer "hang: deadlock", the goroutine stays parked and the
+// worker goes on); a call still running after ms milliseconds is answered "hang" and the worker must exit (exit = true).
+func c07Watch(ms int, f func() (string, string)) (a c07Answer, exit bool) {
+	resCh := make(chan c07Answer, 1)
+	gidCh := make(chan string, 1)
+	go func() {
+		b := make([]byte, 64)
+		b = b[:runtime.Stack(b, false)] // "goroutine N [running]:..."
+		fl := strings.Fields(string(b))
+		if len(fl) >= 2 {
+			gidCh <- fl[1]
+		} else {
+			gidCh <- "?"
+		}
+		cl, de := f()
+		resCh <- c07Answer{cl, de}
+	}()
+	gid := <-gidCh
+	start := time.Now()
+	tick := time.NewTicker(200 * time.Millisecond)
+	defer tick.Stop()
+	for {
+		select {
+		case a = <-resCh:
+			return a, false
+		case <-tick.C:
+			el := time.Since(start)
+			if el >= 400*time.Millisecond {
+				if dead, desc := c07CallState(gid); dead {
+					return c07Answer{"hang", "deadlock: " + desc}, false
+				} else if el >= time.Duration(ms)*time.Millisecond {
+					return c07Answer{"hang", fmt.Sprintf("still running after %dms: %s", ms, desc)}, true
+				}
+			}
+		}
+	}
+}
+
 func c07Worker() {
 	memCap := uint64(4 << 30)
 	if len(os.Args) >= 3 {
@@ -439,46 +690,13 @@ func c07Worker() {
 				req := c07Req{Entry: parts[1], Rules: parts[2] == "1", Tmpl: parts[3]}
 				fmt.Sscan(parts[4], &req.Repeat)
 				req.Doc, _ = hex.DecodeString(parts[5])
-				type answer struct{ class, detail string }
-				resCh := make(chan answer, 1)
-				gidCh := make(chan string, 1)
-				go func() {
-					b := make([]byte, 64)
-					b = b[:runtime.Stack(b, false)] // "goroutine N [running]:..."
-					f := strings.Fields(string(b))
-					if len(f) >= 2 {
-						gidCh <- f[1]
-					} else {
-						gidCh <- "?"
-					}
-					cl, de := c07Serve(req)
-					resCh <- answer{cl, de}
-				}()
-				gid := <-gidCh
-				var a answer
+				var a c07Answer
 				exit := false
-				start := time.Now()
-				tick := time.NewTicker(200 * time.Millisecond)
-			wait:
-				for {
-					select {
-					case a = <-resCh:
-						break wait
-					case <-tick.C:
-						el := time.Since(start)
-						if el >= 400*time.Millisecond {
-							if dead, desc := c07CallState(gid); dead {
-								a = answer{"hang", "deadlock: " + desc} // the goroutine stays parked; the worker goes on
-								break wait
-							} else if el >= time.Duration(ms)*time.Millisecond {
-								a = answer{"hang", fmt.Sprintf("still running after %dms: %s", ms, desc)}
-								exit = true
-								break wait
-							}
-						}
-					}
+				if strings.HasPrefix(req.Tmpl, "seq:") {
+					a, exit = c07ServeSeq(req, ms) // every step has its own watchdog
+				} else {
+					a, exit = c07Watch(ms, func() (string, string) { return c07Serve(req) })
 				}
-				tick.Stop()
 				detail := strings.ReplaceAll(strings.ReplaceAll(a.detail, "\n", " "), "\t", " ")
 				if len(detail) > 400 {
 					detail = detail[:400]
@@ -499,9 +717,146 @@ func c07Worker() {
 
 type c07NullReceiver struct{ nullevent.NullEventReceiver }
 
-// c07Serve performs one request inside the worker. A panic that ESCAPES the
-// entry point is caught here (class "panic"); the process survives, which is
-// what a caller with its own recover() would observe.
+// c07Object is what a caller keeps between calls: the Marshaler / Unmarshaler / Decoder / Encoder behind a method
+// entry point (nothing for the one-shot functions, which make their own per call).
+type c07Object struct {
+	e   *c07Entry
+	cfg *configuration.Configuration
+	u   ce.Unmarshaler
+	d   ce.Decoder
+	m   ce.Marshaler
+	enc ce.Encoder
+}
+
+func c07NewObject(e *c07Entry, cfg *configuration.Configuration) *c07Object {
+	o := &c07Object{e: e, cfg: cfg}
+	switch e.Kind {
+	case "unmarshal":
+		if e.Method {
+			if e.Fmt == "cbe" {
+				o.u = ce.NewCBEUnmarshaler(cfg)
+			} else {
+				o.u = ce.NewCTEUnmarshaler(cfg)
+			}
+		}
+	case "decode":
+		switch e.Fmt {
+		case "ce":
+			o.d = ce.NewCEDecoder(cfg)
+		case "cbe":
+			o.d = ce.NewCBEDecoder(cfg)
+		default:
+			o.d = ce.NewCTEDecoder(cfg)
+		}
+	case "marshal":
+		if e.Method {
+			if e.Fmt == "cbe" {
+				o.m = ce.NewCBEMarshaler(cfg)
+			} else {
+				o.m = ce.NewCTEMarshaler(cfg)
+			}
+		}
+	case "encode":
+		if e.Fmt == "cbe" {
+			o.enc = ce.NewCBEEncoder(cfg)
+		} else {
+			o.enc = ce.NewCTEEncoder(cfg)
+		}
+	}
+	return o
+}
+
+// call performs ONE call of the entry point on this object. A panic that ESCAPES the entry point is caught here
+// (class "panic"); the process survives, which is what a caller with its own recover() would observe.
+func (o *c07Object) call(rules bool, tmplName string, doc []byte) (class, detail string) {
+	defer func() {
+		if r := recover(); r != nil {
+			class, detail = "panic", fmt.Sprint(r)
+		}
+	}()
+	fin := func(err error) (string, string) {
+		if err != nil {
+			return "err", err.Error()
+		}
+		return "ok", ""
+	}
+	e, cfg := o.e, o.cfg
+	var err error
+	switch e.Kind {
+	case "unmarshal":
+		tmpl, ok := c07Template(tmplName)
+		if !ok {
+			return "bad", "unknown template " + tmplName
+		}
+		switch e.Name {
+		case "UnmarshalCE":
+			_, err = ce.UnmarshalCE(bytes.NewReader(doc), tmpl, cfg)
+		case "UnmarshalFromCEDocument":
+			_, err = ce.UnmarshalFromCEDocument(doc, tmpl, cfg)
+		case "UnmarshalCBE":
+			_, err = ce.UnmarshalCBE(bytes.NewReader(doc), tmpl, cfg)
+		case "UnmarshalFromCBEDocument":
+			_, err = ce.UnmarshalFromCBEDocument(doc, tmpl, cfg)
+		case "UnmarshalCTE":
+			_, err = ce.UnmarshalCTE(bytes.NewReader(doc), tmpl, cfg)
+		case "UnmarshalFromCTEDocument":
+			_, err = ce.UnmarshalFromCTEDocument(doc, tmpl, cfg)
+		default:
+			if e.Reader {
+				_, err = o.u.Unmarshal(bytes.NewReader(doc), tmpl)
+			} else {
+				_, err = o.u.UnmarshalFromDocument(doc, tmpl)
+			}
+		}
+		return fin(err)
+	case "decode":
+		var rcv events.DataEventReceiver = &c07NullReceiver{}
+		if rules {
+			rcv = ce.NewRules(rcv, cfg)
+		}
+		if e.Reader {
+			err = o.d.Decode(bytes.NewReader(doc), rcv)
+		} else {
+			err = o.d.DecodeDocument(doc, rcv)
+		}
+		return fin(err)
+	case "marshal":
+		val, ok := c07Value(tmplName, len(doc)*200)
+		if !ok {
+			return "bad", "unknown value " + tmplName
+		}
+		switch e.Name {
+		case "MarshalCBE":
+			err = ce.MarshalCBE(val, io.Discard, cfg)
+		case "MarshalToCBEDocument":
+			_, err = ce.MarshalToCBEDocument(val, cfg)
+		case "MarshalCTE":
+			err = ce.MarshalCTE(val, io.Discard, cfg)
+		case "MarshalToCTEDocument":
+			_, err = ce.MarshalToCTEDocument(val, cfg)
+		default:
+			if e.Reader {
+				err = o.m.Marshal(val, io.Discard)
+			} else {
+				_, err = o.m.MarshalToDocument(val)
+			}
+		}
+		return fin(err)
+	case "encode":
+		// a fresh universal decoder drives the reused encoder; the encoder's panics surface as the decoder's error
+		o.enc.PrepareToEncode(io.Discard)
+		var rcv events.DataEventReceiver = o.enc
+		if rules {
+			rcv = ce.NewRules(rcv, cfg)
+		}
+		err = ce.NewCEDecoder(cfg).DecodeDocument(doc, rcv)
+		return fin(err)
+	}
+	return "bad", "unknown kind"
+}
+
+// c07Serve performs one plain request inside the worker: Repeat calls with the same input on one object; the class of
+// the last call is reported (a panic that escaped an earlier call is reported at once).
 func c07Serve(req c07Req) (class, detail string) {
 	defer func() {
 		if r := recover(); r != nil {
@@ -521,106 +876,97 @@ func c07Serve(req c07Req) (class, detail string) {
 	if rep < 1 {
 		rep = 1
 	}
-	fin := func(err error) (string, string) {
+	o := c07NewObject(e, cfg)
+	for i := 0; i < rep; i++ {
+		class, detail = o.call(req.Rules, req.Tmpl, req.Doc)
+		if class != "ok" && class != "err" {
+			return class, detail
+		}
+	}
+	return class, detail
+}
+
+// A call sequence: Tmpl = "seq:" + steps joined by "|"; a step is "<template or value name>@<hex document>" (for a
+// marshal step the document only carries the nesting depth of v:deep-list, as in the plain requests).
+type c07Step struct {
+	Tmpl string
+	Doc  []byte
+}
+
+func c07SeqSpec(steps []c07Step) string {
+	p := make([]string, len(steps))
+	for i, st := range steps {
+		p[i] = st.Tmpl + "@" + hex.EncodeToString(st.Doc)
+	}
+	return "seq:" + strings.Join(p, "|")
+}
+
+func c07ParseSeq(s string) ([]c07Step, error) {
+	if !strings.HasPrefix(s, "seq:") {
+		return nil, fmt.Errorf("not a sequence")
+	}
+	out := []c07Step{}
+	for _, p := range strings.Split(s[4:], "|") {
+		i := strings.LastIndexByte(p, '@')
+		if i < 0 {
+			return nil, fmt.Errorf("bad step %q", p)
+		}
+		d, err := hex.DecodeString(p[i+1:])
 		if err != nil {
-			return "err", err.Error()
+			return nil, fmt.Errorf("bad step %q", p)
 		}
-		return "ok", ""
+		out = append(out, c07Step{Tmpl: p[:i], Doc: d})
 	}
-	var err error
-	switch e.Kind {
-	case "unmarshal":
-		tmpl, ok := c07Template(req.Tmpl)
-		if !ok {
-			return "bad", "unknown template " + req.Tmpl
-		}
-		var u ce.Unmarshaler
-		if e.Method {
-			if e.Fmt == "cbe" {
-				u = ce.NewCBEUnmarshaler(cfg)
-			} else {
-				u = ce.NewCTEUnmarshaler(cfg)
-			}
-		}
-		for i := 0; i < rep; i++ {
-			switch e.Name {
-			case "UnmarshalCE":
-				_, err = ce.UnmarshalCE(bytes.NewReader(req.Doc), tmpl, cfg)
-			case "UnmarshalFromCEDocument":
-				_, err = ce.UnmarshalFromCEDocument(req.Doc, tmpl, cfg)
-			case "UnmarshalCBE":
-				_, err = ce.UnmarshalCBE(bytes.NewReader(req.Doc), tmpl, cfg)
-			case "UnmarshalFromCBEDocument":
-				_, err = ce.UnmarshalFromCBEDocument(req.Doc, tmpl, cfg)
-			case "UnmarshalCTE":
-				_, err = ce.UnmarshalCTE(bytes.NewReader(req.Doc), tmpl, cfg)
-			case "UnmarshalFromCTEDocument":
-				_, err = ce.UnmarshalFromCTEDocument(req.Doc, tmpl, cfg)
-			default:
-				if e.Reader {
-					_, err = u.Unmarshal(bytes.NewReader(req.Doc), tmpl)
-				} else {
-					_, err = u.UnmarshalFromDocument(req.Doc, tmpl)
-				}
-			}
-		}
-		return fin(err)
-	case "decode":
-		var d ce.Decoder
-		switch e.Fmt {
-		case "ce":
-			d = ce.NewCEDecoder(cfg)
-		case "cbe":
-			d = ce.NewCBEDecoder(cfg)
-		default:
-			d = ce.NewCTEDecoder(cfg)
-		}
-		for i := 0; i < rep; i++ {
-			var rcv events.DataEventReceiver = &c07NullReceiver{}
-			if req.Rules {
-				rcv = ce.NewRules(rcv, cfg)
-			}
-			if e.Reader {
-				err = d.Decode(bytes.NewReader(req.Doc), rcv)
-			} else {
-				err = d.DecodeDocument(req.Doc, rcv)
-			}
-		}
-		return fin(err)
-	case "marshal":
-		val, ok := c07Value(req.Tmpl, len(req.Doc)*200)
-		if !ok {
-			return "bad", "unknown value " + req.Tmpl
-		}
-		var m ce.Marshaler
-		if e.Method {
-			if e.Fmt == "cbe" {
-				m = ce.NewCBEMarshaler(cfg)
-			} else {
-				m = ce.NewCTEMarshaler(cfg)
-			}
-		}
-		for i := 0; i < rep; i++ {
-			switch e.Name {
-			case "MarshalCBE":
-				err = ce.MarshalCBE(val, io.Discard, cfg)
-			case "MarshalToCBEDocument":
-				_, err = ce.MarshalToCBEDocument(val, cfg)
-			case "MarshalCTE":
-				err = ce.MarshalCTE(val, io.Discard, cfg)
-			case "MarshalToCTEDocument":
-				_, err = ce.MarshalToCTEDocument(val, cfg)
-			default:
-				if e.Reader {
-					err = m.Marshal(val, io.Discard)
-				} else {
-					_, err = m.MarshalToDocument(val)
-				}
-			}
-		}
-		return fin(err)
+	if len(out) == 0 {
+		return nil, fmt.Errorf("empty sequence")
 	}
-	return "bad", "unknown kind"
+	return out, nil
+}
+
+// c07ServeSeq performs a call sequence on ONE object, every step under its own watchdog.  Answer: the class of the
+// first step that did not return normally (hang / panic), else the class of the last step; the detail starts with
+// "steps=<class of every performed step, comma separated>;".  A step that hangs ends the sequence (its goroutine
+// still owns the object).
+func c07ServeSeq(req c07Req, ms int) (a c07Answer, exit bool) {
+	steps, err := c07ParseSeq(req.Tmpl)
+	e := c07EntryByName(req.Entry)
+	if err != nil || e == nil {
+		return c07Answer{"bad", "bad sequence request"}, false
+	}
+	cfg := configuration.New()
+	cfg.Marshal.EnforceRules = req.Rules
+	var o *c07Object
+	classes := []string{}
+	worst, worstDetail := "", ""
+	for i, st := range steps {
+		st := st
+		sa, ex := c07Watch(ms, func() (cl string, de string) {
+			defer func() {
+				if r := recover(); r != nil { // the constructor panicked
+					cl, de = "panic", fmt.Sprint(r)
+				}
+			}()
+			if o == nil {
+				o = c07NewObject(e, cfg)
+			}
+			return o.call(req.Rules, st.Tmpl, st.Doc)
+		})
+		classes = append(classes, sa.class)
+		if sa.class == "bad" {
+			return c07Answer{"bad", sa.detail}, ex
+		}
+		if sa.class != "ok" && sa.class != "err" && worst == "" {
+			worst, worstDetail = sa.class, fmt.Sprintf("step %d of %d (%s): %s", i+1, len(steps), st.Tmpl, sa.detail)
+		}
+		if sa.class == "hang" {
+			return c07Answer{"hang", "steps=" + strings.Join(classes, ",") + "; " + worstDetail}, ex
+		}
+		a = sa
+	}
+	if worst != "" {
+		return c07Answer{worst, "steps=" + strings.Join(classes, ",") + "; " + worstDetail}, false
+	}
+	return c07Answer{a.class, "steps=" + strings.Join(classes, ",") + "; " + a.detail}, false
 }
 
 // ---------------------------------------------------------------------------
@@ -1131,7 +1477,7 @@ func (ch *c07Child) call(req c07Req, timeout time.Duration) (res c07Res, alive b
 			parts = append(parts, "")
 		}
 		r := c07Res{Class: parts[0], Detail: parts[1]}
-		if r.Class == "hang" && !strings.HasPrefix(r.Detail, "deadlock:") {
+		if r.Class == "hang" && !c07IsDeadlock(r.Detail) {
 			ch.stop() // the worker exits after such an answer
 			return r, false
 		}
@@ -1141,6 +1487,9 @@ func (ch *c07Child) call(req c07Req, timeout time.Duration) (res c07Res, alive b
 		return c07Res{Class: "hang", Detail: fmt.Sprintf("no answer from the worker within %v", timeout+10*time.Second)}, false
 	}
 }
+
+// a hang the worker proved to be a deadlock (the worker survives it); any other hang makes the worker exit
+func c07IsDeadlock(detail string) bool { return strings.Contains(detail, "deadlock: ") }
 
 // the line of a crashed worker's stderr that names the fatal error
 func c07FatalLine(s string) string {
@@ -1181,7 +1530,7 @@ func (p *c07Pool) one(ch **c07Child, req c07Req) c07Res {
 	if !alive {
 		*ch = nil
 	}
-	if r.Class == "hang" && !strings.HasPrefix(r.Detail, "deadlock:") {
+	if r.Class == "hang" && !c07IsDeadlock(r.Detail) {
 		c2 := c07Start(p.memCap)
 		r2, alive2 := c2.call(req, 3*t)
 		if alive2 {
@@ -1246,9 +1595,219 @@ func (p *c07Pool) run(reqs []c07Req, skip func(i int) bool, done func(i int, r c
 
 type c07Item struct {
 	Req   c07Req
-	Class string // input class (how the document / value was made)
-	Trace int    // index into the trace requests (-1: none)
-	Spec  int    // index of the companion format-specific decode item (-1: none)
+	Class string    // input class (how the document / value was made)
+	Trace int       // index into the trace requests (-1: none)
+	Spec  int       // index of the companion format-specific decode item (-1: none)
+	Seq   []c07Step // call sequence on one object (nil: a plain request); Req.Tmpl then holds its spec
+	Model bool      // sequence: also compared with the Coq model (a sample of the exhaustive pairs, all of the rest)
+}
+
+// ---------------------------------------------------------------------------
+// Description of the types and values of a marshal sequence for CE.Model.Entry (tyenv / vshape): follows
+// iterator/session.go getDefaultIteratorForType (which kinds get an iterator, which types an iterator looks up while
+// it is generated) and iterator/iterators.go (which of them a value makes it call).
+
+type c07TyEnv struct {
+	ids  map[reflect.Type]int
+	kind []byte           // s scalar, b unsupported kind, i interface, c composite
+	kids [][]reflect.Type // composite: the types looked up while the iterator is generated, in order
+	ok   bool             // false: something the description does not cover
+}
+
+func newC07TyEnv() *c07TyEnv { return &c07TyEnv{ids: map[reflect.Type]int{}, ok: true} }
+
+func c07PrimitiveElem(k reflect.Kind) bool {
+	switch k {
+	case reflect.Uint8, reflect.Uint16, reflect.Uint32, reflect.Uint64, reflect.Uint, reflect.Int8, reflect.Int16, reflect.Int32,
+		reflect.Int64, reflect.Int, reflect.Float32, reflect.Float64, reflect.Bool:
+		return true
+	}
+	return false
+}
+
+func (env *c07TyEnv) id(t reflect.Type) int {
+	if i, ok := env.ids[t]; ok {
+		return i
+	}
+	i := len(env.kind)
+	env.ids[t] = i
+	env.kind = append(env.kind, 's')
+	env.kids = append(env.kids, nil)
+	set := func(k byte, kids ...reflect.Type) {
+		env.kind[i] = k
+		env.kids[i] = kids
+		for _, kt := range kids {
+			env.id(kt)
+		}
+	}
+	switch t.Kind() {
+	case reflect.Bool, reflect.String, reflect.Int, reflect.Int8, reflect.Int16, reflect.Int32, reflect.Int64,
+		reflect.Uint, reflect.Uint8, reflect.Uint16, reflect.Uint32, reflect.Uint64, reflect.Float32, reflect.Float64:
+		set('s')
+	case reflect.Interface:
+		set('i')
+	case reflect.Array, reflect.Slice:
+		if c07PrimitiveElem(t.Elem().Kind()) {
+			set('s')
+		} else {
+			set('c', t.Elem())
+		}
+	case reflect.Map:
+		set('c', t.Key(), t.Elem())
+	case reflect.Ptr:
+		if t.Elem().Kind() == reflect.Struct && t.Elem().PkgPath() != "main" && t.Elem().PkgPath() != "" {
+			env.ok = false // *url.URL, *big.Int ...: own iterators
+		}
+		set('c', t.Elem())
+	case reflect.Struct:
+		if t.PkgPath() != "main" && t.PkgPath() != "" {
+			env.ok = false // time.Time, types.Node ...: own iterators
+			set('s')
+			break
+		}
+		kids := []reflect.Type{}
+		for f := 0; f < t.NumField(); f++ {
+			fd := t.Field(f)
+			if fd.Anonymous || fd.Tag != "" {
+				env.ok = false
+			}
+			if fd.PkgPath == "" { // exported
+				kids = append(kids, fd.Type)
+			}
+		}
+		set('c', kids...)
+	default: // chan, func, complex, unsafe.Pointer, uintptr: "BUG: Unhandled type"
+		set('b')
+	}
+	return i
+}
+
+func (env *c07TyEnv) term() string {
+	out := make([]string, len(env.kind))
+	byID := make([]reflect.Type, len(env.kind))
+	for t, i := range env.ids {
+		byID[i] = t
+	}
+	for i, k := range env.kind {
+		switch k {
+		case 's':
+			out[i] = "TScalar"
+		case 'b':
+			out[i] = "TBad"
+		case 'i':
+			out[i] = "TIface"
+		default:
+			ks := []string{}
+			for _, kt := range env.kids[i] {
+				ks = append(ks, fmt.Sprintf("%d%%nat", env.ids[kt]))
+			}
+			out[i] = "TComp " + cList(ks)
+		}
+	}
+	return cList(out)
+}
+
+func c07IsEmptyValue(v reflect.Value) bool { // iterator/iterators.go isValueEmpty (fields are omitted when empty by default)
+	switch v.Kind() {
+	case reflect.Interface, reflect.Ptr:
+		return v.IsNil()
+	case reflect.Map, reflect.Slice:
+		return v.IsNil() || v.Len() == 0
+	case reflect.Array, reflect.String:
+		return v.Len() == 0
+	}
+	return false
+}
+
+// shape of a value as the iterators walk it
+func (env *c07TyEnv) shape(v reflect.Value) string { return env.shapeAt(v, 1) }
+
+// depth = number of iterator calls on the path to this value; the model evaluates with fuel typed_case_fuel = 64
+func (env *c07TyEnv) shapeAt(v reflect.Value, depth int) string {
+	if depth > 60 {
+		env.ok = false
+		return "VLeaf"
+	}
+	i := env.id(v.Type())
+	kid := func(n int, x reflect.Value) string { return fmt.Sprintf("(%d%%nat, %s)", n, env.shapeAt(x, depth+1)) }
+	switch env.kind[i] {
+	case 'i':
+		if v.IsNil() {
+			return "VLeaf"
+		}
+		return fmt.Sprintf("(VDyn %d%%nat %s)", env.id(v.Elem().Type()), env.shapeAt(v.Elem(), depth+1))
+	case 'c':
+		ks := []string{}
+		switch v.Kind() {
+		case reflect.Ptr:
+			if v.IsNil() {
+				return "VLeaf"
+			}
+			ks = append(ks, kid(0, v.Elem()))
+		case reflect.Slice, reflect.Array:
+			if v.Kind() == reflect.Slice && v.IsNil() {
+				return "VLeaf"
+			}
+			for j := 0; j < v.Len(); j++ {
+				ks = append(ks, kid(0, v.Index(j)))
+			}
+		case reflect.Map:
+			if v.IsNil() {
+				return "VLeaf"
+			}
+			if v.Len() > 1 {
+				env.ok = false // iteration order
+			}
+			it := v.MapRange()
+			for it.Next() {
+				ks = append(ks, kid(0, it.Key()), kid(1, it.Value()))
+			}
+		case reflect.Struct:
+			n := 0
+			for f := 0; f < v.NumField(); f++ {
+				if v.Type().Field(f).PkgPath != "" {
+					continue
+				}
+				if !c07IsEmptyValue(v.Field(f)) {
+					ks = append(ks, kid(n, v.Field(f)))
+				}
+				n++
+			}
+		}
+		return "(VNode " + cList(ks) + ")"
+	}
+	return "VLeaf"
+}
+
+// c07DescribeMarshalSeq: the (tyenv, calls) arguments of a TypedMarshalCase, or ok=false when a value is outside
+// what the description covers.
+func c07DescribeMarshalSeq(steps []c07Step) (envTerm, callsTerm string, ok bool) {
+	env := newC07TyEnv()
+	calls := []string{}
+	for _, st := range steps {
+		val, found := c07Value(st.Tmpl, len(st.Doc)*200)
+		if !found || val == nil {
+			return "", "", false
+		}
+		rv := reflect.ValueOf(val)
+		calls = append(calls, fmt.Sprintf("(%d%%nat, %s)", env.id(rv.Type()), env.shape(rv)))
+	}
+	if !env.ok || len(env.kind) > 60 {
+		return "", "", false
+	}
+	return env.term(), cList(calls), true
+}
+
+// per-step classes out of a sequence answer ("steps=err,err,ok; ...")
+func c07StepClasses(detail string) []string {
+	if !strings.HasPrefix(detail, "steps=") {
+		return nil
+	}
+	i := strings.IndexByte(detail, ';')
+	if i < 0 {
+		return nil
+	}
+	return strings.Split(detail[len("steps="):i], ",")
 }
 
 // document spec for replay files: "hex:<hex>" or "rep:<prefix hex>:<unit hex>:<count>:<suffix hex>"
@@ -1629,6 +2188,9 @@ func c07Key(it c07Item, r c07Res, letters string, fails bool) string {
 			}
 		}
 	}
+	if it.Seq != nil { // call sequence on one object: the cause is the kind of history, "seq/<history>" -> "reused-object/<history>"
+		cause = "reused-object/" + strings.TrimPrefix(it.Class, "seq/")
+	}
 	return fmt.Sprintf("C07/%s/%s/%s", outcome, e.Family, cause)
 }
 
@@ -1644,11 +2206,15 @@ func c07ReplayOf(it c07Item, docSpec string) map[string]string {
 	if docSpec == "" {
 		docSpec = "hex:" + hex.EncodeToString(it.Req.Doc)
 	}
-	return map[string]string{"entry": it.Req.Entry, "rules": ru, "template_or_value": it.Req.Tmpl, "repeat": fmt.Sprint(rep), "doc": docSpec, "input_class": it.Class}
+	m := map[string]string{"entry": it.Req.Entry, "rules": ru, "template_or_value": it.Req.Tmpl, "repeat": fmt.Sprint(rep), "doc": docSpec, "input_class": it.Class}
+	if it.Seq != nil {
+		m["sequence"] = "calls on ONE object, in order, each `template or value name`@`hex document`: " + strings.TrimPrefix(it.Req.Tmpl, "seq:")
+	}
+	return m
 }
 
 func runC07(c *Ctx) {
-	c.Rep.Rule = "every public decode / unmarshal / marshal entry point of package ce (one-shot functions and Marshaler/Unmarshaler/Decoder methods, reader and byte-slice variants) is called in child processes (4 GiB address-space cap, watchdog) on: empty and header-only documents, random bytes, valid CBE/CTE documents (generated) mutated / truncated at every position, deeply nested containers, huge announced lengths in every CBE length field, random documents over a CBE fragment, with the validator on and off, typed templates of every kind incl. unsupported ones, and values to marshal incl. unsupported kinds, cyclic values and repeated use of one object; a call is non-trivial unless it is a random document whose first byte no format recognises; distinct = distinct (entry, validator, template/value, repeat, document)"
+	c.Rep.Rule = "every public decode / unmarshal / marshal entry point of package ce (one-shot functions and Marshaler/Unmarshaler/Decoder methods, reader and byte-slice variants) is called in child processes (4 GiB address-space cap, watchdog) on: empty and header-only documents, random bytes, valid CBE/CTE documents (generated) mutated / truncated at every position, deeply nested containers, huge announced lengths in every CBE length field, random documents over a CBE fragment, with the validator on and off, typed templates of every kind incl. unsupported ones, and values to marshal incl. unsupported kinds, cyclic values and repeated use of one object; and on SEQUENCES of 2-3 different calls on one reused Marshaler / Unmarshaler / Decoder / Encoder (every call under its own watchdog) whose earlier calls fail: unsupported kinds alone and inside self-referential type graphs (every ordered pair of 8 views of 14 root types, as values and as templates), documents truncated at every position and invalid documents, values whose iteration fails in mid-document; marshal sequences are compared call by call with the iterator-session model over the type graph; a call is non-trivial unless it is a random document whose first byte no format recognises; distinct = distinct (entry, validator, template/value, repeat, document)"
 	pool := &c07Pool{memCap: 4 << 30, timeout: time.Duration(c.Pick(3, 5)) * time.Second, workers: 12}
 	cf := c.Cases("entry", "CE.Model.Entry", "entry_case", "entry_case_ok")
 
@@ -1907,6 +2473,253 @@ func runC07(c *Ctx) {
 		}
 	}
 
+	// J. call sequences on ONE reused Marshaler / Unmarshaler / Decoder / Encoder (2-3 calls, every call under its own
+	// watchdog in the child): earlier calls fail — unsupported types (plain, and inside self-referential type graphs, where
+	// the failed generation leaves iterators / builders of OTHER types of the cycle cached), invalid documents, documents
+	// truncated at every position, values whose iteration fails after events have reached the encoder — and the later calls
+	// must still return.
+	addSeq := func(e c07Entry, rules bool, class string, steps []c07Step) {
+		items = append(items, c07Item{Req: c07Req{Entry: e.Name, Rules: rules, Tmpl: c07SeqSpec(steps), Repeat: 1}, Class: "seq/" + class, Trace: -1, Spec: -1, Seq: steps,
+			Model: len(steps) != 2 || c.Thorough() || c.Rng.Intn(100) < 45})
+	}
+	methodEntries := func(list []c07Entry, format string) []c07Entry {
+		out := []c07Entry{}
+		for _, e := range list {
+			if e.Method && (format == "" || e.Fmt == format || e.Fmt == "ce") {
+				out = append(out, e)
+			}
+		}
+		return out
+	}
+	marshalMethods := methodEntries(marshalEntries, "")
+	oneShotMarshal := []c07Entry{}
+	for _, e := range marshalEntries {
+		if !e.Method {
+			oneShotMarshal = append(oneShotMarshal, e)
+		}
+	}
+	mstep := func(v string) c07Step { return c07Step{Tmpl: v, Doc: []byte{1}} }
+	gname := func(root, view string) string { return "g:" + root + "/" + view }
+	anyView := func() string {
+		return gname(c07GraphRootNames[c.Rng.Intn(len(c07GraphRootNames))], c07GraphViews[c.Rng.Intn(len(c07GraphViews))])
+	}
+	nSeq := 0
+	pickMarshalEntry := func() c07Entry {
+		nSeq++
+		if nSeq%8 == 0 {
+			return oneShotMarshal[c.Rng.Intn(len(oneShotMarshal))] // fresh session per call: the control
+		}
+		return marshalMethods[c.Rng.Intn(len(marshalMethods))]
+	}
+
+	// J1. marshal, type graphs: every ordered pair of core views of every root, and sampled triples over all views and roots
+	for _, root := range c07GraphRootNames {
+		for _, v1 := range c07GraphCoreViews {
+			for _, v2 := range c07GraphCoreViews {
+				addSeq(pickMarshalEntry(), false, "type-graph", []c07Step{mstep(gname(root, v1)), mstep(gname(root, v2))})
+			}
+		}
+	}
+	for i := 0; i < c.Pick(300, 4000); i++ {
+		root := c07GraphRootNames[c.Rng.Intn(len(c07GraphRootNames))]
+		st := make([]c07Step, 3)
+		for j := range st {
+			if c.Rng.Intn(2) == 0 {
+				st[j] = mstep(gname(root, c07GraphViews[c.Rng.Intn(len(c07GraphViews))]))
+			} else {
+				st[j] = mstep(anyView())
+			}
+		}
+		addSeq(pickMarshalEntry(), false, "type-graph", st)
+	}
+	// J2. marshal: iteration fails in mid-document, then other values
+	followUps := []string{"v:list", "v:nested", "v:map", "v:interface-map", "g:recOK/ptr2", "v:node"}
+	for _, m := range c07MidFailNames {
+		for _, f := range followUps {
+			for _, e := range marshalMethods {
+				addSeq(e, false, "after-failure-in-mid-document", []c07Step{mstep(m), mstep(f)})
+			}
+		}
+		for k := 0; k < 8; k++ {
+			addSeq(pickMarshalEntry(), false, "after-failure-in-mid-document", []c07Step{mstep(m), mstep(c07MidFailNames[c.Rng.Intn(len(c07MidFailNames))]), mstep(followUps[c.Rng.Intn(len(followUps))])})
+		}
+	}
+	// J3. marshal: plain unsupported kinds, then other unsupported / supported values
+	allValues := append(append([]string{}, c07ValueNames...), c07TemplateNames...)
+	for i := 0; i < c.Pick(80, 1000); i++ {
+		u1 := c07UnsupportedNames[c.Rng.Intn(len(c07UnsupportedNames))]
+		u2 := c07UnsupportedNames[c.Rng.Intn(len(c07UnsupportedNames))]
+		v := allValues[c.Rng.Intn(len(allValues))]
+		st := []c07Step{mstep(u1), mstep(u2), mstep(v)}
+		if v == "v:deep-list" {
+			st[2].Doc = make([]byte, 4)
+		}
+		if i%3 == 0 {
+			st = []c07Step{st[0], st[2]}
+		}
+		addSeq(pickMarshalEntry(), false, "after-unsupported-type", st)
+	}
+
+	// documents for the unmarshal / decode / encode sequences
+	toCBE := func(cte string) []byte {
+		var buf bytes.Buffer
+		enc := ce.NewCBEEncoder(configuration.New())
+		enc.PrepareToEncode(&buf)
+		if err := ce.NewCTEDecoder(configuration.New()).DecodeDocument([]byte(cte), enc); err != nil {
+			panic("c07: harness document does not convert: " + cte + ": " + err.Error())
+		}
+		return append([]byte{}, buf.Bytes()...)
+	}
+	gStruct := `{"Name"="a" "V"=1 "Next"={"Name"="b" "V"=2} "Kids"=[{"V"=3}] "M"={"k"={"V"=4}} "F"={"E"={"V"=5} "Back"=[{"V"=6}]} "H"={"I"={"G"={}}} "Arr"=[{} {}] "OK"={"V"=7 "Next"={"V"=8}} "A"={"Name"="c" "Next"={"Name"="d"}} "E"=[{"V"=9}]}`
+	gdocs := map[string]map[string][]byte{"cte": {}, "cbe": {}}
+	for k, body := range map[string]string{"struct": gStruct, "list": "[" + gStruct + " {\"V\"=1}]", "map": "{\"k\"=" + gStruct + "}", "wrap": "{\"P\"=" + gStruct + "}"} {
+		gdocs["cte"][k] = []byte("c0 " + body)
+		gdocs["cbe"][k] = toCBE("c0 " + body)
+	}
+	docOfView := func(view string) string {
+		switch view {
+		case "sliceptr", "sliceval", "emptyslice", "ifacelist":
+			return "list"
+		case "map":
+			return "map"
+		case "wrap":
+			return "wrap"
+		}
+		return "struct"
+	}
+	gdocKinds := []string{"struct", "list", "map", "wrap"}
+	unmarshalMethods := map[string][]c07Entry{"cbe": methodEntries(unmarshalEntries, "cbe"), "cte": methodEntries(unmarshalEntries, "cte")}
+	ustep := func(format, root, view string) c07Step {
+		k := docOfView(view)
+		if c.Rng.Intn(5) == 0 {
+			k = gdocKinds[c.Rng.Intn(len(gdocKinds))] // a document that does not fit the template
+		}
+		return c07Step{Tmpl: gname(root, view), Doc: gdocs[format][k]}
+	}
+	// J4. unmarshal, type graphs as templates: every ordered pair of core views of every root, sampled triples
+	nU := 0
+	pickUnmarshal := func() (string, c07Entry) {
+		nU++
+		f := []string{"cbe", "cte"}[c.Rng.Intn(2)]
+		es := unmarshalMethods[f]
+		return f, es[c.Rng.Intn(len(es))]
+	}
+	for _, root := range c07GraphRootNames {
+		for _, v1 := range c07GraphCoreViews {
+			for _, v2 := range c07GraphCoreViews {
+				f, e := pickUnmarshal()
+				addSeq(e, nU%3 != 0, "type-graph", []c07Step{ustep(f, root, v1), ustep(f, root, v2)})
+			}
+		}
+	}
+	for i := 0; i < c.Pick(300, 4000); i++ {
+		f, e := pickUnmarshal()
+		root := c07GraphRootNames[c.Rng.Intn(len(c07GraphRootNames))]
+		st := make([]c07Step, 3)
+		for j := range st {
+			r := root
+			if c.Rng.Intn(2) == 0 {
+				r = c07GraphRootNames[c.Rng.Intn(len(c07GraphRootNames))]
+			}
+			st[j] = ustep(f, r, c07GraphViews[c.Rng.Intn(len(c07GraphViews))])
+		}
+		addSeq(e, c.Rng.Intn(3) != 0, "type-graph", st)
+	}
+	// J5. unmarshal: plain unsupported template kinds, then other templates
+	for i := 0; i < c.Pick(80, 1000); i++ {
+		f, e := pickUnmarshal()
+		ds := tdocs[f]
+		st := []c07Step{{Tmpl: c07UnsupportedNames[c.Rng.Intn(len(c07UnsupportedNames))], Doc: ds[c.Rng.Intn(len(ds))].B},
+			{Tmpl: c07UnsupportedNames[c.Rng.Intn(len(c07UnsupportedNames))], Doc: ds[c.Rng.Intn(len(ds))].B},
+			{Tmpl: c07TemplateNames[c.Rng.Intn(len(c07TemplateNames))], Doc: ds[c.Rng.Intn(len(ds))].B}}
+		if i%3 == 0 {
+			st = st[1:]
+		}
+		addSeq(e, c.Rng.Intn(2) == 0, "after-unsupported-type", st)
+	}
+	// J6. unmarshal / decode / encode: documents that fail (truncated at every position, invalid), then valid ones
+	base := map[string][][]byte{"cbe": {}, "cte": {}}
+	for f, ds := range tdocs {
+		for _, d := range ds {
+			base[f] = append(base[f], d.B)
+		}
+	}
+	for f := range gdocs {
+		base[f] = append(base[f], gdocs[f]["struct"], gdocs[f]["list"])
+	}
+	nGen := map[string]int{}
+	for i := len(valids) - 1; i >= 0; i-- {
+		v := valids[i]
+		if len(v.b) <= 60 && nGen[v.format] < c.Pick(12, 80) {
+			nGen[v.format]++
+			base[v.format] = append(base[v.format], v.b)
+		}
+	}
+	failing := map[string][][]byte{"cbe": {}, "cte": {}}
+	for _, f := range []string{"cbe", "cte"} {
+		for _, b := range base[f] {
+			if len(b) <= c.Pick(48, 200) {
+				for p := 0; p < len(b); p++ {
+					failing[f] = append(failing[f], b[:p])
+				}
+			} else {
+				for k := 0; k < c.Pick(16, 64); k++ {
+					failing[f] = append(failing[f], b[:c.Rng.Intn(len(b))])
+				}
+			}
+		}
+	}
+	for _, h := range []string{"810073", "81009b", "81009a9b9b", "8100999a", "81009901", "810090ff", "81007ff001617ff0016101", "8100770161", "81009901020103 9b", "8100960161", "810083ffffff",
+		"810097", "81009701", "8100970102", "810098", "81009897", "8100999a97", "81007ff00161", "81009a7ff00161", "81009773", "8100976a01", "81009873", "8100", "81", "8102", "00"} {
+		b, _ := hex.DecodeString(strings.ReplaceAll(h, " ", ""))
+		failing["cbe"] = append(failing["cbe"], b)
+	}
+	for _, t := range []string{"c0 ]", "c0 [1 2", "c0 {1=", "c0 @(1 2", "c0 \"abc", "c0 [1 2}", "c0 $a", "c0 [&a:1 &a:2]", "c0 {1=2 1=3}", "c0 @a{", "c0 0x", "c0 1 2", "c1x", "c0 |u8x zz|",
+		"c0 (", "c0 [@(1 }", "c0 @(", "c0 @(1", "c0 [(", "c0 {1=@(", "c0 &a:", "c0 [&a:", "c0 @(]", "c0 (]", "c0 /* x", "c", "c0", "x"} {
+		failing["cte"] = append(failing["cte"], []byte(t))
+	}
+	failTmpls := []string{"nil", "nil", "nil", "struct", "nested", "[]interface", "edge", "node", "map[string]int", "g:recOK/ptr0"}
+	decodeMethods := map[string][]c07Entry{"cbe": methodEntries(decodeEntries, "cbe"), "cte": methodEntries(decodeEntries, "cte")}
+	encEntry := map[string]c07Entry{"cbe": c07EncoderEntries[0], "cte": c07EncoderEntries[1]}
+	nF := 0
+	failSeq := func(f string, docs [][]byte) {
+		nF++
+		other := f
+		last := base[f][c.Rng.Intn(len(base[f]))]
+		var e c07Entry
+		switch nF % 5 {
+		case 0, 1:
+			e = unmarshalMethods[f][(nF/5)%len(unmarshalMethods[f])]
+		case 2, 3:
+			e = decodeMethods[f][(nF/5)%len(decodeMethods[f])]
+			if e.Fmt == "ce" && c.Rng.Intn(2) == 0 { // the universal decoder may get the other format next
+				other = map[string]string{"cbe": "cte", "cte": "cbe"}[f]
+				last = base[other][c.Rng.Intn(len(base[other]))]
+			}
+		default:
+			e = encEntry[[]string{"cbe", "cte"}[(nF/5)%2]] // the encoder is driven by a decoder of either format
+		}
+		st := []c07Step{}
+		for _, d := range docs {
+			st = append(st, c07Step{Tmpl: failTmpls[c.Rng.Intn(len(failTmpls))], Doc: d})
+		}
+		st = append(st, c07Step{Tmpl: pickTmpl(), Doc: last})
+		if e.Kind != "unmarshal" {
+			for j := range st {
+				st[j].Tmpl = "nil"
+			}
+		}
+		addSeq(e, nF%2 == 0, "after-failed-document", st)
+	}
+	for _, f := range []string{"cbe", "cte"} {
+		for _, d := range failing[f] {
+			failSeq(f, [][]byte{d})
+		}
+		for i := 0; i < c.Pick(100, 1500); i++ {
+			failSeq(f, [][]byte{failing[f][c.Rng.Intn(len(failing[f]))], failing[f][c.Rng.Intn(len(failing[f]))]})
+		}
+	}
+
 	// calls that are expected to take long are started first so that they overlap with everything else
 	sort.SliceStable(items, func(i, j int) bool { return items[i].Req.Slow && !items[j].Req.Slow })
 
@@ -1916,7 +2729,7 @@ func runC07(c *Ctx) {
 	for i := range items {
 		it := &items[i]
 		e := c07EntryByName(it.Req.Entry)
-		if e.Kind != "unmarshal" {
+		if e.Kind != "unmarshal" || it.Seq != nil {
 			continue
 		}
 		tr := c07Req{Entry: "trace-" + e.Fmt, Rules: it.Req.Rules, Tmpl: "nil", Repeat: 1, Doc: it.Req.Doc}
@@ -1999,7 +2812,7 @@ func runC07(c *Ctx) {
 
 	// ---- oracle, evidence, correspondence cases
 	nCases := map[string]int{}
-	caseCap := map[string]int{"decode": c.Pick(350, 3000), "unmarshal": c.Pick(700, 8000), "marshal": c.Pick(250, 1500), "frag": c.Pick(500, 6000)}
+	caseCap := map[string]int{"decode": c.Pick(350, 3000), "unmarshal": c.Pick(700, 8000), "marshal": c.Pick(250, 1500), "frag": c.Pick(500, 6000), "typed": c.Pick(800, 8000)}
 	addCase := func(kind, term, human string) {
 		if nCases[kind] >= caseCap[kind] {
 			return
@@ -2026,7 +2839,9 @@ func runC07(c *Ctx) {
 		nontrivial := !(it.Class == "random" && len(it.Req.Doc) > 0 && detectSpec(it.Req.Doc[0]) == "none")
 		c.Count(it.Req.line(), nontrivial)
 		c.Dist(fmt.Sprintf("%s/%s/%s", e.Family, strings.SplitN(it.Class, "/", 2)[0], r.Class))
-		if e.Kind != "marshal" {
+		if it.Seq != nil {
+			c.Dist(fmt.Sprintf("%s/%d-calls/%s", it.Class, len(it.Seq), r.Class))
+		} else if e.Kind != "marshal" {
 			c.Dist(fmt.Sprintf("validator=%v/%s", it.Req.Rules, r.Class))
 			if it.Req.Tmpl != "nil" {
 				c.Dist("template/" + it.Req.Tmpl + "/" + r.Class)
@@ -2046,6 +2861,32 @@ func runC07(c *Ctx) {
 		cl := c07Cls(r.Class)
 		if cl == "" || (r.Class == "killed" && c07IsOOM(r)) {
 			c.Dist("case-excluded/oom-or-unclassified")
+			continue
+		}
+		if it.Seq != nil {
+			// marshal sequences are compared step by step with the iterator-session model over the type graph
+			// (CE.Model.Entry run_typed); the builder session of typed destinations has no model
+			if e.Kind != "marshal" {
+				c.Dist("case-excluded/sequence-without-model")
+				continue
+			}
+			if !it.Model {
+				c.Dist("case-excluded/sequence-not-sampled")
+				continue
+			}
+			stepCls := c07StepClasses(r.Detail)
+			envT, callsT, described := c07DescribeMarshalSeq(it.Seq)
+			cls := []string{}
+			for _, sc := range stepCls {
+				if x := c07Cls(sc); x != "" {
+					cls = append(cls, x)
+				}
+			}
+			if !described || stepCls == nil || len(cls) != len(stepCls) {
+				c.Dist("case-excluded/sequence-not-described")
+				continue
+			}
+			addCase("typed", cApp("TypedMarshalCase", it.Req.Entry, envT, callsT, cList(cls)), human+" steps="+strings.Join(stepCls, ","))
 			continue
 		}
 		head := it.Req.Doc
@@ -2142,6 +2983,11 @@ func replayC07(r *Replay) (bool, string) {
 	req.Slow = strings.HasPrefix(req.Tmpl, "v:cyclic")
 	if c07EntryByName(req.Entry) == nil {
 		return false, "bad replay input: unknown entry point"
+	}
+	if strings.HasPrefix(req.Tmpl, "seq:") {
+		if _, err := c07ParseSeq(req.Tmpl); err != nil {
+			return false, "bad replay input: " + err.Error()
+		}
 	}
 	pool := &c07Pool{memCap: 4 << 30, timeout: 5 * time.Second, workers: 1}
 	res := pool.run([]c07Req{req}, nil, nil)[0]
